@@ -181,6 +181,12 @@ func probeSet(rng *rand.Rand, n, h int, extra int) []int {
 func generate(rng *rand.Rand, dir string, ntraces, length int, emit func(*Event) error) error {
 	for t := 0; t < ntraces; t++ {
 		n := 100 + rng.Intn(301)
+		tlen := length
+		if t%4 == 3 {
+			// a large set: more than 256 entries get shifted by one flush (chunked copies, page-sized buffers)
+			n = 700 + rng.Intn(300)
+			tlen = 3 * length
+		}
 		u, err := randomUniverse(rng, n)
 		if err != nil {
 			return err
@@ -196,12 +202,12 @@ func generate(rng *rand.Rand, dir string, ntraces, length int, emit func(*Event)
 		var addedIDs []int
 		last := 0
 		ok := true
-		for i := 0; i < length && ok; i++ {
+		for i := 0; i < tlen && ok; i++ {
 			k := rng.Intn(100)
 			switch {
-			case i == length-2:
+			case i == tlen-2:
 				ok, err = s.do("flush", 0, probeSet(rng, n, 1+rng.Intn(n), 12), true)
-			case i == length-1:
+			case i == tlen-1:
 				ok, err = s.do("reopen", 0, probeSet(rng, n, 1+rng.Intn(n), 12), true)
 			case k < 8:
 				ok, err = s.do("flush", 0, probeSet(rng, n, 1+rng.Intn(n), 8), true)
